@@ -225,8 +225,36 @@ class Compiler:
                     except (KeyError, IndexError):
                         raise SemanticError(f'Pattern {cons.pat.id} never occurs before.')
 
+    def _fresh_temp_tags(self, chain: RuleChain, ref_chain: RuleChain) -> RuleChain:
+        """
+        Renumber the temporary patterns of ``ref_chain`` that already occur in ``chain``
+        (the same rule referred to more than once), so that every copy keeps its own constraints.
+        """
+        used = set(c.id for c in chain.name if isinstance(c, psr.Pattern))
+        mapping = {}
+        name = []
+        for comp in ref_chain.name:
+            if isinstance(comp, psr.Pattern) and int(comp.id) < 0 and comp.id in used:
+                mapping[comp.id] = str(self.next_temp)
+                self.next_temp -= 1
+                comp = psr.Pattern(id=mapping[comp.id])
+            name.append(comp)
+        if not mapping:
+            return ref_chain
+        cons_set = []
+        for cons in ref_chain.cons_set:
+            ids = cons.pat.id.split(' ')
+            if any(i in mapping for i in ids):
+                cons = psr.TagConstraint(pat=psr.Pattern(id=' '.join(mapping.get(i, i) for i in ids)),
+                                         options=cons.options)
+            cons_set.append(cons)
+        return self.RuleChain(id=ref_chain.id, name=name, cons_set=cons_set, sign_cons=ref_chain.sign_cons)
+
     def _replicate_rules(self):
         self.rep_rules = {}
+        # id of the next fresh temporary pattern (continues the numbering of `_gen_pattern_numbers`)
+        self.next_temp = min([int(c.id) for rule in self.lvs.rules for c in rule.name.p
+                              if isinstance(c, psr.Pattern)] + [0]) - 1
         for rule in self.lvs.rules:
             sign_cons = sorted([s.id for s in rule.sign_cons])
             if not rule.comp_cons:
@@ -239,13 +267,13 @@ class Compiler:
                     for chain in cur_chains:
                         chain.name.append(comp)
                 else:
-                    # Note: this repeats temporary tag numbers, which needs to be fixed before emit.
                     new_chains = [self.RuleChain(id=rule.id.id,
-                                                 name=chain.name+ref_chain.name,
-                                                 cons_set=chain.cons_set+ref_chain.cons_set,
+                                                 name=chain.name+fresh_chain.name,
+                                                 cons_set=chain.cons_set+fresh_chain.cons_set,
                                                  sign_cons=chain.sign_cons)
                                   for ref_chain in self.rep_rules[comp.id]
-                                  for chain in cur_chains]
+                                  for chain in cur_chains
+                                  for fresh_chain in [self._fresh_temp_tags(chain, ref_chain)]]
                     assert len(new_chains) > 0
                     cur_chains = new_chains
             if rule.id.id not in self.rep_rules:
